@@ -19,6 +19,11 @@ Codes == ErrCodeSet
 BinF == {"OP_ADD", "OP_SUB", "OP_MUL", "OP_DIV", "OP_POW", "OP_CONCAT", "OP_EQ", "OP_NE", "OP_LT", "OP_GT", "OP_LE", "OP_GE"}
 Partners == << Whole(2), Rat(1, 2), Txt(<<97>>), Txt(<<51>>), Bool(TRUE), Blank, Date(44000), Txt(<<>>), Whole(0) >>
 NP == Len(Partners)
+\* the type matrix also has text that looks like a date or a number but that no date library / double can hold
+TypePartners == Partners \o << Txt(<<49, 47, 49, 47>> \o [i \in 1..20 |-> 57]),      \* 1/1/99999999999999999999
+                               Txt(<<49, 50, 58>> \o [i \in 1..20 |-> 57]),          \* 12:99999999999999999999
+                               Txt(<<49, 101, 57, 57, 57>>) >>                        \* 1e999
+NT == Len(TypePartners)
 
 C(f, a) == [f |-> f, args |-> a]
 
@@ -35,8 +40,8 @@ InitCase ==
         case = C(f, IF pos = 1 THEN <<Err(e), Partners[k]>> ELSE <<Partners[k], Err(e)>>)
   \/ \E f \in BinF, e1 \in Codes, e2 \in Codes : case = C(f, <<Err(e1), Err(e2)>>)
   \/ \E f \in {"OP_NEG", "OP_PERCENT"}, e \in Codes : case = C(f, <<Err(e)>>)
-  \/ \E f \in BinF, i \in 1..NP, j \in 1..NP : case = C(f, <<Partners[i], Partners[j]>>)
-  \/ \E f \in {"OP_NEG", "OP_PERCENT"}, i \in 1..NP : case = C(f, <<Partners[i]>>)
+  \/ \E f \in BinF, i \in 1..NT, j \in 1..NT : case = C(f, <<TypePartners[i], TypePartners[j]>>)
+  \/ \E f \in {"OP_NEG", "OP_PERCENT"}, i \in 1..NT : case = C(f, <<TypePartners[i]>>)
   \/ \E w \in 1..Len(Witness), e \in Codes : \E p \in Points(Witness[w]) :
         case = C(Witness[w].f, Inject(Witness[w].args, p, Err(e)))
   \/ \E w \in 1..Len(Witness), e1 \in {"#N/A", "#DIV/0!"}, e2 \in {"#VALUE!", "#N/A"} : \E p \in Points(Witness[w]), q \in Points(Witness[w]) :
